@@ -14,7 +14,7 @@ from ..core import MachineryError
 NOBJ = 4
 NOVAL = 4
 NONE = 1000
-EXPRS = ["d.items", "kids:items.value", "value", "child.value", "child:value", "child.child.value", "kids.items.value", "kids:items:value",
+EXPRS = ["csnap", "chv", "d.items", "kids:items.value", "value", "child.value", "child:value", "child.child.value", "kids.items.value", "kids:items:value",
          "child.kids.items.value", "[child,kids.items].value", "kids.items.child.value", "d.items.value",
          "child.d:items.value", "+tracked.value", "+tracked:kids.items", "+ltracked:items.value", "child.*", "kids.items",
          "child"]
@@ -81,8 +81,13 @@ class Pool(object):
 
     def __init__(self):
         oc = _api()
-        self.objs = [None] + [oc.Node() for _ in range(NOBJ - 1)] + [oc.Bare()]
+        self.objs = [None, oc.CNode()] + [oc.Node() for _ in range(NOBJ - 2)] + [oc.Bare()]
+        for k in range(1, NOBJ + 1):
+            self.objs[k].tokn = k
+        self.objs[1].w = 1
         self.tok = {id(o): k for k, o in enumerate(self.objs) if o is not None}
+        self.last_read = {}      # property -> index in self.muts of the previous read
+        self.muts = []           # (pre heap, m) of every mutation so far
         self.log = {h: [] for h in range(1, NH + 1)}
         # handler 1: a plain closure over the pool; handlers 2..: bound methods of separate owner objects
         self.owners = {h: HandlerOwner(self, h) for h in range(2, NH + 1)}
@@ -126,21 +131,62 @@ class Pool(object):
             # read through __dict__: projecting the heap must not materialise a default container
             kids.append([self.tok.get(id(x), 0) for x in o.__dict__.get("kids", ())])
             d.append([[int(key) if key.isdigit() else 777, self.tok.get(id(v), 0)] for key, v in o.__dict__.get("d", {}).items()])
-        return {"child": child, "kids": kids, "d": d}
+        vals = [self.objs[k].__dict__.get("value", 0) if k != NOVAL else 0 for k in range(1, NOBJ + 1)]
+        return {"child": child, "kids": kids, "d": d, "vals": vals}
 
     def census(self):
-        """sizes of every notifier list reachable in the pool (class-or-instance traits, containers)"""
+        """per notifier list of the pool: how many entries belong to OUR handlers (user notifiers and maintainers of the
+        dynamic registrations; the class-level observers of the observed properties are not ours)"""
+        mine = [self.handlers[1]] + [o.handle for o in self.owners.values()]
+
+        def count(lst):
+            k = 0
+            for n in (lst or ()):
+                hf = getattr(n, "handler", None)
+                try:
+                    hv = hf() if callable(hf) else None
+                except Exception:
+                    hv = None
+                if hv is not None and any(hv == mh for mh in mine):
+                    k += 1
+            return k
         tot = []
         for k in range(1, NOBJ + 1):
             o = self.objs[k]
-            for n in ("child", "kids", "d", "value", "trait_added", "kids_items", "d_items"):
+            for n in ("child", "kids", "d", "value", "trait_added", "kids_items", "d_items", "csnap", "chv"):
                 t = o._trait(n, 0)
-                tot.append(len(t._notifiers(False) or ()) if t is not None else 0)
-            # containers carry one built-in notifier (their own items-event forwarder): count the extra ones
-            tot.append(len(o.__dict__["kids"].notifiers) - 1 if "kids" in o.__dict__ else 0)
-            tot.append(len(o.__dict__["d"].notifiers) - 1 if "d" in o.__dict__ else 0)
-            tot.append(len(o._notifiers(False) or ()))
+                tot.append(count(t._notifiers(False)) if t is not None else 0)
+            tot.append(count(o.__dict__["kids"].notifiers) if "kids" in o.__dict__ else 0)
+            tot.append(count(o.__dict__["d"].notifiers) if "d" in o.__dict__ else 0)
+            tot.append(count(o._notifiers(False)))
         return tot
+
+    def read_prop(self, p):
+        """read an observed property of the root; returns (projected value, getter runs)"""
+        oc = _api()
+        root = self.objs[1]
+        key = (id(root), p)
+        before = oc.RUNS.get(key, 0)
+        v = getattr(root, p)
+        runs = oc.RUNS.get(key, 0) - before
+        if p == "csnap":
+            ret = [[a, b] for a, b in v]
+        else:
+            ret = list(v)
+        return ret, runs
+
+    def replace_by_copy(self, kind):
+        """continue the history on a pickle / deep copy of the whole pool (sharing preserved)"""
+        import copy
+        import pickle
+        objs = self.objs[1:]
+        new = pickle.loads(pickle.dumps(objs, kind)) if kind >= 0 else copy.deepcopy(objs)
+        self.objs = [None] + list(new)
+        self.tok = {id(o): k for k, o in enumerate(self.objs) if o is not None}
+        self.regs = {}
+        self.last_read = {}
+        self.muts = []
+        self.census0 = self.census()
 
     def regs_list(self):
         return [{"h": h, "e": e, "n": n} for h, (e, n) in sorted(self.regs.items()) if n > 0]
@@ -159,9 +205,15 @@ class Pool(object):
             if k == NOVAL:
                 continue
             self.clear_logs()
+            # the probe is itself a (relevant) change: it belongs to the mutations since the last property read
+            self.muts.append((self.heap(), {"t": "value", "op": "", "x": k, "a": [0, 0, 0], "xs": [], "ps": [], "h": 0, "e": ""}))
             self.objs[k].value += 1
             for h in range(1, NH + 1):
-                counts[h][k - 1] = len(self.log[h])
+                # events about other traits (an observed property recomputed because of the bump, seen through `*`)
+                # are not what the probe asks about
+                own = self.regs.get(h, [""])[0]
+                counts[h][k - 1] = sum(1 for ev in self.log[h]
+                                       if ev == ["trait", k, "value"] or (own in ("csnap", "chv") and ev[2] == own))
         self.clear_logs()
         return [counts[h] for h in range(1, NH + 1)]
 
@@ -244,7 +296,9 @@ def random_mut(rnd, heap, allow_loop):
     m = {"t": "", "op": "", "x": x, "a": [0, 0, 0], "xs": [], "ps": []}
     n = len(heap["kids"][x - 1])
     if u < 0.2:
-        m.update(t="child", a=[rnd.randint(0, NOBJ), 0, 0])
+        # comparison mode none: re-assigning the very same object is an event too (old is new)
+        same = rnd.random() < 0.3 and heap["child"][x - 1] != 0
+        m.update(t="child", a=[heap["child"][x - 1] if same else rnd.randint(0, NOBJ), 0, 0])
     elif u < 0.28:
         same = rnd.random() < 0.3           # an equal but distinct list: no user event, but the hooks must move
         m.update(t="kidsassign", xs=list(heap["kids"][x - 1]) if same else [ro() for _ in range(rnd.randint(0, 3))])
@@ -350,6 +404,40 @@ def run_history(rnd, steps, t, p_loop=0.0):
                         "regs2": pool.regs_list(), "calls": pool.calls(), "probe": probe, "census0": pool.census0,
                         "census1": census1, "census2": pool.census(), "paths": [], "alive": alive, "dropped": len(pool.dropped)})
             continue
+        if 0.90 < u <= 0.985:
+            # C12: read an observed property of the root
+            p = rnd.choice(["csnap", "csnap", "chv"])
+            m = {"t": "read", "h": 0, "e": p, "op": "", "x": 1, "a": [0, 0, 0], "xs": [], "ps": []}
+            try:
+                ret, runs = pool.read_prop(p)
+            except Exception as ex:
+                ret, runs, exc = [], 0, type(ex).__name__
+            start = pool.last_read.get(p)
+            since = [{"pre": a, "m": b} for a, b in (pool.muts[start:] if start is not None else [])]
+            pool.last_read[p] = len(pool.muts)
+            out.append({"tid": t, "step": s, "m": m, "exc": exc, "pre": pre, "post": pool.heap(), "regs": regs1,
+                        "regs2": regs1, "calls": pool.calls(), "probe": [], "census0": pool.census0, "census1": census1,
+                        "census2": census1, "paths": [], "alive": 0, "dropped": len(pool.dropped), "ret": ret, "runs": runs,
+                        "since": since, "first": 1 if start is None else 0})
+            continue
+        if 0.885 < u <= 0.90 and s > 1:
+            kind = rnd.choice([-1, 2, 4, 5])
+            m = {"t": "copy", "h": 0, "e": "", "op": str(kind), "x": 1, "a": [kind, 0, 0], "xs": [], "ps": []}
+            try:
+                pool.replace_by_copy(kind)
+            except Exception as ex:
+                exc = type(ex).__name__
+            post = pool.heap()
+            # read the observed properties of the copy BEFORE anything else touches it
+            try:
+                rets = [pool.read_prop("csnap")[0], pool.read_prop("chv")[0]]
+            except Exception as ex:
+                rets, exc = [[], []], exc or type(ex).__name__
+            probe = pool.probe()
+            out.append({"tid": t, "step": s, "m": m, "exc": exc, "pre": pre, "post": post, "regs": regs1, "regs2": [],
+                        "calls": pool.calls(), "probe": probe, "census0": pool.census0, "census1": census1,
+                        "census2": pool.census(), "paths": [], "alive": 0, "dropped": 1, "rets": rets})
+            continue
         if u < 0.22 or not regs1 and u < 0.5:
             h = rnd.choice(live)
             e = pool.regs[h][0] if h in pool.regs else rnd.choice(EXPRS)
@@ -371,6 +459,7 @@ def run_history(rnd, steps, t, p_loop=0.0):
             m = random_mut(rnd, pre, True)
             m["h"] = 0
             m["e"] = ""
+            pool.muts.append((pre, m))
             try:
                 apply_mut(pool, m)
             except Exception as ex:
@@ -385,6 +474,8 @@ def run_history(rnd, steps, t, p_loop=0.0):
                     "paths": paths, "alive": 0, "dropped": len(pool.dropped)})
         if m["t"] in ("child", "kidsassign", "kids", "dassign", "d") and on_cycle(pre, m["x"]):
             break               # known finding F8: from here on the code is off-specification
+        if NOVAL in post["kids"][0] or post["child"][0] == NOVAL:
+            break               # the root's observed properties require `value` there: inapplicable from here on
         if exc and m["t"] not in ("observe", "unobserve") and exc not in ("IndexError", "ValueError_list", "KeyError"):
             if exc == "ValueError" and m["t"] == "kids" and m["op"] in ("remove", "setslice", "delslice"):
                 # may be the list's own ValueError; the judge decides; but hooks may be partial: stop
@@ -422,6 +513,9 @@ def step_record(pool, t, s, m, do):
             "paths": [], "alive": 0, "dropped": 0}
 
 
+WITH_READS = [True]
+
+
 def case_records(kind, pre, m, t):
     """mode A: container `pre` on the root under three registrations; one operation; then clear; then collect"""
     pool = Pool()
@@ -440,15 +534,47 @@ def case_records(kind, pre, m, t):
         root.observe(pool.handler(h), e)
         pool.regs[h] = [e, 1]
     m = dict(m, h=0, e="")
-    out = [step_record(pool, t, 0, m, lambda: apply_mut(pool, m))]
-    if out[0]["exc"] and out[0]["exc"] not in ("IndexError", "KeyError", "ValueError"):
+
+    def read(step):
+        p = "csnap"
+        rm = dict(blank, t="read", e=p)
+        pre_h = pool.heap()
+        try:
+            ret, runs = pool.read_prop(p)
+            exc = ""
+        except Exception as ex:
+            ret, runs, exc = [], 0, type(ex).__name__
+        start = pool.last_read.get(p)
+        since = [{"pre": a, "m": b} for a, b in (pool.muts[start:] if start is not None else [])]
+        pool.last_read[p] = len(pool.muts)
+        return {"tid": t, "step": step, "m": rm, "exc": exc, "pre": pre_h, "post": pool.heap(), "regs": pool.regs_list(),
+                "regs2": pool.regs_list(), "calls": [[], [], []], "probe": [], "census0": pool.census0,
+                "census1": pool.census0, "census2": pool.census0, "paths": [], "alive": 0, "dropped": 0, "ret": ret,
+                "runs": runs, "since": since, "first": 1 if start is None else 0}
+
+    def mut(step, mm):
+        pool.muts.append((pool.heap(), mm))
+        return step_record(pool, t, step, mm, lambda: apply_mut(pool, mm))
+    reads = WITH_READS[0]
+    out = ([read(0)] if reads else []) + [mut(1, m)]
+    if out[-1]["exc"] and out[-1]["exc"] not in ("IndexError", "KeyError", "ValueError"):
         return out
-    out.append(step_record(pool, t, 1, clear, lambda: apply_mut(pool, clear)))
+    if reads:
+        if kind == "list" and root.kids:
+            out.append(mut(2, dict(blank, t="kids", op="pop", a=[NONE, 0, 0])))
+        out.append(read(3))
+        # the cache is now filled: a change of an item that is still in the container must invalidate it
+        for k in (2, 3):
+            out.append(mut(3, dict(blank, t="value", x=k)))
+        out.append(read(3))
+    out.append(mut(4, clear))
+    if reads:
+        out.append(read(5))
     refs = [weakref.ref(o) for o in pool.objs[1:]] + [weakref.ref(o) for o in pool.owners.values()]
     last = dict(out[-1])
     del pool, root, O
     gc.collect()
-    last.update(m=dict(blank, t="collect"), alive=sum(1 for w in refs if w() is not None), step=2, exc="")
+    last.update(m=dict(blank, t="collect"), alive=sum(1 for w in refs if w() is not None), step=6, exc="")
     out.append(last)
     return out
 
@@ -465,7 +591,7 @@ def case_fn(st, rep):
     return {"fail": None, "lines": recs, "sample": recs[0]}
 
 
-PROP_CLAUSES = {"C08": ("C08-", "F8"), "C09": ("C09-",), "C12": ("C12-",), "C16": ("C16-",)}
+PROP_CLAUSES = {"C08": ("C08-", "F8"), "C09": ("C09-",), "C12": ("C12-", "F8"), "C16": ("C16-",)}
 
 
 def sig_of_factory(pid):
@@ -487,19 +613,23 @@ def run_for(rep, tier, seed, pid):
     rnd = random.Random(seed)
     work = tlc.scratch_dir("obs_")
     try:
-        ntr, steps = (1200, 14) if tier == "quick" else (30000, 22)
+        ntr, steps = ((2500 if pid == "C09" else 1200), 14) if tier == "quick" else (30000, 22)
         trace = os.path.join(work, "trace.ndjson")
         n = 0
         sample = None
-        # mode A: the enumerated container cases
-        dump = os.path.join(work, "cases")
-        res = tlc.run_tlc("ObserveCasesMC", "ObserveCasesMC.cfg", dump=dump, timeout=3000, workers=4)
-        rep.add_tlc("ObserveCasesMC", res)
-        from .. import cases as _cases
-        tot = _cases.run_dump_cases(dump + ".dump", case_fn, out_ndjson=trace)
-        os.unlink(dump + ".dump")
-        n += tot["nlines"]
-        rep.extra["enumerated_container_cases"] = tot["ncases"]
+        # mode A: the enumerated container cases (C09 is about registration steps: histories only)
+        if pid != "C09":
+            WITH_READS[0] = (pid == "C12")
+            dump = os.path.join(work, "cases")
+            res = tlc.run_tlc("ObserveCasesMC", "ObserveCasesMC_%s.cfg" % tier, dump=dump, timeout=3000, workers=4)
+            rep.add_tlc("ObserveCasesMC", res)
+            from .. import cases as _cases
+            tot = _cases.run_dump_cases(dump + ".dump", case_fn, out_ndjson=trace)
+            os.unlink(dump + ".dump")
+            n += tot["nlines"]
+            rep.extra["enumerated_container_cases"] = tot["ncases"]
+        else:
+            open(trace, "w").close()
         with open(trace, "a") as f:
             for t in range(ntr):
                 for r in run_history(rnd, steps, t):
